@@ -15,7 +15,7 @@ from ..gen import BASE_US
 
 REPLAY_BY_RERUN = True  # workloads are deterministic in (tier, seed, shard): replay re-runs the shard
 SHARDS = {"quick": 4, "thorough": 4}
-TIMEOUT = {"quick": 600, "thorough": 1800}
+TIMEOUT = {"quick": 1800, "thorough": 7200}
 
 import datetime as _dt
 from decimal import Decimal
